@@ -45,6 +45,11 @@ def run(ctx, res):
     Mx = bv.M
     seen = {"er2": 0, "stack": 0, "argptr": 0, "argbyte": 0, "argnul": 0, "exit": 0, "image-end": 0}
     image_end_var = None
+    EH = "elf::header::ElfHeader32"
+    tables_ok = set()
+    res.ob(L.ehdr is not None)
+    if L.ehdr is None:
+        res.errors.append("the ELF header value was not identified (parse_elf_header32 not called?)")
     for o in outs:
         st = o.state
         if o.kind == "panic":
@@ -104,6 +109,10 @@ def run(ctx, res):
                         if okv != 0:
                             res.finding("image-end|value", "for a PT_LOAD header the image end does not become p_paddr + p_memsz (or the maximum so far)", witness(okv))
                         image_end_var = nm
+                        if L.ehdr is not None and ("pht", repr(e[1])) not in tables_ok:
+                            tables_ok.add(("pht", repr(e[1])))
+                            loadermod.check_table(res, e[1], "parse_program_header32", bv.zext(get(facts, EH, L.ehdr, "phnum").bits, 64), bv.zext(get(facts, EH, L.ehdr, "phoff").bits, 64),
+                                                  care, "image-end", "image extent", differs, witness)
         # image end taken by indexing the table (no type test)?
         vi = [e for e in effs if e[0] == "vec-index" and isinstance(e[3], Agg) and len(e[3].fields) == len(fields_of(facts, PH)) and isinstance(e[3].fields[0], SymEnum)]
         sec = [e for e in effs if e[0] == "iter-next" and isinstance(e[3], Agg) and len(e[3].fields) == 2 and isinstance(e[3].fields[0], Opaque) and e[3].fields[0].tag == "str"
@@ -117,6 +126,10 @@ def run(ctx, res):
             hdr = L.ip.read_loc(st, hdr.root, hdr.path)
         is_stack = strmodel.eq_var(name_t, ".stack")
         is_symtab = strmodel.eq_var(name_t, ".symtab")
+        if L.ehdr is not None and ("sht", repr(sec[-1][1])) not in tables_ok:
+            tables_ok.add(("sht", repr(sec[-1][1])))
+            loadermod.check_table(res, sec[-1][1], "parse_section_header32", bv.zext(get(facts, EH, L.ehdr, "shnum").bits, 64), bv.zext(get(facts, EH, L.ehdr, "shoff").bits, 64),
+                                  care, "sections", "section loop (.stack / .symtab)", differs, witness)
         after_sec = effs[effs.index(sec[-1]) + 1:]
         w7 = er_write(7)
         if w7 is not None and isinstance(hdr, Agg) and Mx.AND(care, is_stack) != 0 and "insert" in [x[0] for x in after_sec]:
@@ -296,6 +309,15 @@ def run(ctx, res):
             exit0 = bv.seq_bv("exit0", 32)
             if isinstance(ex, Int) and "loop-back" in [x[0] for x in effs[effs.index(syms[-1]):]]:
                 seen["exit"] = 1
+                # every symbol of the table is visited: ___exit may sit at any index
+                if ("sym", repr(syms[-1][1])) not in tables_ok:
+                    tables_ok.add(("sym", repr(syms[-1][1])))
+                    size = get(facts, SH, hdr, "size").bits
+                    ents = get(facts, SH, hdr, "entry_size").bits
+                    nexp = bv.zext(bv.udiv(size, ents), 64)
+                    care_n = Mx.AND(care, Mx.NOT(bv.is_zero(ents)))
+                    loadermod.check_table(res, syms[-1][1], "parse_symbol_table_header32", nexp, bv.zext(get(facts, SH, hdr, "offset").bits, 64),
+                                          care_n, "exit", "symbol loop (___exit)", differs, witness)
                 care_s = Mx.AND(care, strmodel.exclusivity())
                 exp = bv.ite(is_exit, bv.add(get(facts, SYM, symt, "value").bits, bv.const(BASE, 32)), None) if False else None
                 val = bv.add(get(facts, SYM, symt, "value").bits, bv.const(BASE, 32))
